@@ -18,7 +18,8 @@ PROPERTY = "C14"
 property_meta(
     PROPERTY, level="other",
     trusted_base=["A-PY", "A-NP-INDEX", "A-REAL (NaN as a token)", "A-NP-SPEC: argmax / nanargmax / max (first maximal element; nanargmax ignores NaN and raises on an all-NaN slice)",
-                  "A-PANDAS (DataFrame = dict of columns)", "contract of arr_pre_post: arr_pre[i,t] = arr[i,t] if t < peak_i else NaN, arr_post[i,t] = arr[i,t] if t >= peak_i else NaN (checked exhaustively for T <= 9 natively)"],
+                  "A-PANDAS (DataFrame = dict of columns)", "compute_spike_features data-flow harness: every step (find_peak ... recovery_slope) is replaced by a summary that records its arguments and returns a token / fresh array - "
+                  "the steps' own behaviour is what the other harnesses and the stand-in decide", "contract of arr_pre_post: arr_pre[i,t] = arr[i,t] if t < peak_i else NaN, arr_post[i,t] = arr[i,t] if t >= peak_i else NaN (checked exhaustively for T <= 9 natively)"],
     explanation="pick_maximum: the reported peak is the global absolute extremum, first on ties; find_trough / find_tip: trough at or after the peak, tip strictly before it (needs the peak off the first sample); "
                 "recovery_point: index in bounds and falls back to the last sample whenever the offset runs past the end; lemmas: scaling by c>0 and channel permutation leave the arg-max rule invariant. "
                 "Half-peak points, the weak-positive swap, batch independence and the slopes: bounded stand-in on generated spikes.")
@@ -308,6 +309,48 @@ def h_recovery(H):
         it.ctx.oblige("recovery.index", A.forall([i], lambda: z3.Implies(z3.And(i >= 0, i < n), rt.read((i,)) == want(i))), "post", "trough + offset, or the last sample when that runs past the end")
         it.ctx.oblige("recovery.value", A.forall([i], lambda: z3.Implies(z3.And(i >= 0, i < n), rv.read((i,)) == ap.read((i, want(i))) * inv.read((i,)))), "post", assume=False)
     S.explore(body)
+
+
+def replay_validate(vals, oid):
+    rng = np.random.default_rng(8)
+    bad = []
+    for shape in ((4, 9, 5), (9, 5), (3, 6, 1)):
+        for where in ("first", "middle", "last", "scattered"):
+            a = rng.standard_normal(shape)
+            C = shape[-1]
+            if where == "scattered":
+                a[rng.random(shape) < 0.2] = np.nan
+            else:
+                a[..., {"first": 0, "middle": C // 2, "last": C - 1}[where]] = np.nan
+            b = a.copy()
+            out = W._validate_arr_in(b)
+            want = np.nan_to_num(a if a.ndim == 3 else a[None], nan=0.0)
+            if out.shape != want.shape or np.isnan(out).any() or not np.array_equal(out, want):
+                bad.append({"shape": shape, "NaN channels": where, "NaN left": int(np.isnan(out).sum())})
+    return {"failed": bool(bad), "cases": bad[:4]}
+
+
+@harness(PROPERTY, "validate_arr_in", functions=["ibldsp.waveforms:_validate_arr_in"], replay=replay_validate,
+         clause="feature extraction succeeds for every multi-channel waveform: the NaN padding of out-of-probe channels is replaced by 0 wherever it sits (any channel, any waveform), real samples are kept, a single waveform becomes a batch of one")
+def h_validate(H):
+    for nd in (3, 2):
+        S = H.session(f"validate.{nd}d")
+
+        def body(it, nd=nd):
+            dims = z3.Ints("n T C") if nd == 3 else z3.Ints("T C")
+            for d_ in dims:
+                it.ctx.assume(d_ >= 1)
+            a = A.fresh_array("arr_in", "float64", tuple(dims))
+            a0 = a.snapshot()
+            out = run_function(it, W._validate_arr_in, [a])
+            i, t, c = z3.Ints("i t c")
+            n_, T_, C_ = (dims if nd == 3 else (z3.IntVal(1),) + tuple(dims))
+            src = (lambda i_, t_, c_: a0((i_, t_, c_))) if nd == 3 else (lambda i_, t_, c_: a0((t_, c_)))
+            it.ctx.oblige(f"validate.shape.{nd}d", z3.And(z3.BoolVal(out.ndim == 3), A.T(out.shape[0]) == n_, A.T(out.shape[1]) == T_, A.T(out.shape[2]) == C_), "post", assume=False)
+            it.ctx.oblige(f"validate.no_nan_left_and_samples_kept.{nd}d", A.forall([i, t, c], lambda: z3.Implies(z3.And(i >= 0, i < n_, t >= 0, t < T_, c >= 0, c < C_),
+                          out.read((i, t, c)) == z3.If(src(i, t, c) == NAN, z3.RealVal(0), src(i, t, c)))), "post",
+                          "every NaN of the input - in whatever channel - reads 0 afterwards, every other sample is unchanged", assume=False)
+        S.explore(body)
 
 
 def replay_dataflow(vals, oid):
